@@ -148,6 +148,15 @@ def family_options(m, tier, add_bench, open_mod, close_mod):
     add_bench(m, g, 8, "own_threads", form="bencher", options=[("threads", "[1]")])
     add_bench(m, g, 8, "own_counter", form="bencher", options=[("bytes_count", "9u32")])
     add_bench(m, g, 8, "own_items", form="bencher", options=[("items_count", "11u32")])
+    C = "divan::counter::%sCount::new(%du32)"
+    add_bench(m, g, 8, "counter_form", form="bencher", options=[("counter", C % ("Bytes", 6))])
+    add_bench(m, g, 8, "counters_form", form="bencher", options=[("counters", "[%s, %s]" % (C % ("Items", 2), C % ("Chars", 9)))])
+    add_bench(m, g, 8, "counters_and_named", form="bencher", options=[("counters", "[%s]" % (C % ("Cycles", 8))), ("bytes_count", "12u32")])
+    gc2 = open_mod(m, g, 8, "counters_group", group={"options": [("counters", "[%s, %s]" % (C % ("Chars", 5), C % ("Items", 13)))]})
+    add_bench(m, gc2, 12, "inherits_two_kinds", form="bencher")
+    add_bench(m, gc2, 12, "own_chars", form="bencher", options=[("chars_count", "1u32")])
+    add_bench(m, gc2, 12, "bencher_counter_items", form="bencher", bencher_style="counter")
+    close_mod(m, 8)
     pm = open_mod(m, g, 8, "plain")
     add_bench(m, pm, 12, "through_module", form="bencher")
     close_mod(m, 8)
